@@ -127,9 +127,11 @@ func vO(kv ...any) *dg.Val {
 
 // witnessCase is one exchange of a witness (or fixed) stream.
 type witnessCase struct {
+	Service string // "" = any service of the design
 	Method  string
 	Payload *dg.Val
 	Result  *dg.Val
+	View    string // view the service selects for a viewed result ("" = default)
 	Expect  string // signature the exchange must fail with ("" = must pass: fixed corpus of the main stream)
 }
 
